@@ -48,15 +48,59 @@ theorem encListB_sound : ∀ {bs : List BC} {vs : List VCell}, encListB bs vs = 
 
 theorem loadedB_sound {m : LambdaM} {cl : CLambda} (h : loadedB m cl = true) : LoadedLam m cl := by
   unfold loadedB at h
-  rw [Bool.and_eq_true, List.all_eq_true] at h
-  obtain ⟨h1, h2⟩ := h
-  refine ⟨encListB_sound h1, ?_⟩
+  rw [Bool.and_eq_true, Bool.and_eq_true, List.all_eq_true, decide_eq_true_eq] at h
+  obtain ⟨⟨h1, h2⟩, h3⟩ := h
+  refine ⟨encListB_sound h1, ?_, h3⟩
   intro y hy n hn
   have := h2 y hy
   unfold iofOkB at this
   rw [hn] at this
   simp only [List.any_eq_true, decide_eq_true_eq] at this
   exact this
+
+/-! ## `ImmLoaded`, `LamEnvOk` -/
+
+theorem iofSlotB_sound {parent : List (VCell × Concrete.Source)} {y : VCell × Concrete.Source} (h : iofSlotB parent y = true) {k : Nat}
+    (hk : y.2 = Concrete.Source.iofEnv k) : ∃ z, parent[k]? = some z ∧ z.1 = y.1 := by
+  unfold iofSlotB at h
+  rw [hk] at h
+  simp only at h
+  cases hp : parent[k]? with
+  | none => rw [hp] at h; cases h
+  | some z => rw [hp] at h; exact ⟨z, rfl, of_decide_eq_true h⟩
+
+theorem immLoadedB_sound {tbl : List LambdaM} {h : CHeap} {m : LambdaM} {cl : CLambda}
+    (hb : immLoadedB tbl h m cl = true) : ImmLoaded tbl h m cl := by
+  unfold immLoadedB at hb
+  rw [List.all_eq_true] at hb
+  have key : ∀ (j : Nat) (b : BC), m.bc[j]? = some b → immAtB tbl h m cl j = true := by
+    intro j b hj
+    exact hb j (List.mem_range.mpr (List.getElem?_eq_some_iff.mp hj).1)
+  refine ⟨?_, ?_⟩
+  · intro j b v hj hd hv
+    have := key j b hj
+    unfold immAtB at this
+    rw [hj, hv] at this
+    cases b <;> first | exact this | cases hd
+  · intro j id a hj hv
+    have := key j _ hj
+    unfold immAtB at this
+    rw [hj, hv] at this
+    simp only at this
+    cases ht : tbl[id]? with
+    | none => rw [ht] at this; cases this
+    | some m' =>
+      cases hl : lambdaAt h a with
+      | none => rw [ht, hl] at this; cases this
+      | some cl' =>
+        rw [ht, hl] at this
+        simp only [Bool.and_eq_true, List.all_eq_true] at this
+        exact ⟨m', cl', rfl, rfl, loadedB_sound this.1, fun y hy k hk => iofSlotB_sound (this.2 y hy) hk⟩
+
+theorem envOkB_sound {h : CHeap} {cl : CLambda} (hb : envOkB h cl = true) : LamEnvOk h cl := by
+  unfold envOkB at hb
+  rw [Bool.and_eq_true] at hb
+  exact ⟨hb.1, hb.2⟩
 
 /-! ## `NPArgs`, `LamOk`, `CodeOk`, `LoadedQ` -/
 
@@ -133,13 +177,18 @@ theorem codeOkB_sound {cl : CLambda} (h : codeOkB cl = true) : CodeOk cl := by
   obtain ⟨⟨⟨⟨⟨h1, h2⟩, h3⟩, h4⟩, h5⟩, h6⟩ := h
   exact ⟨h1, noIofB_sound h2, h3, lamOkB_sound h4, npArgsB_sound h5, h6⟩
 
+theorem codeOkHB_sound {h : CHeap} {cl : CLambda} (hb : codeOkHB h cl = true) : CodeOkH h cl := by
+  unfold codeOkHB at hb
+  rw [Bool.and_eq_true] at hb
+  exact ⟨codeOkB_sound hb.1, envOkB_sound hb.2⟩
+
 theorem loadedQB_sound {e : Datum} {fuel : Nat} {st : CState} {lam ent : LambdaM}
-    (hc : compileRunnable e fuel = .ok (st, lam, ent)) {cl : CLambda}
-    (h : loadedQB (lam :: ent :: st.lambdas) cl = true) : LoadedQ e fuel cl := by
+    (hc : compileRunnable e fuel = .ok (st, lam, ent)) {hp : CHeap} {cl : CLambda}
+    (h : loadedQB (st.lambdas ++ [lam]) (lam :: ent :: st.lambdas) hp cl = true) : LoadedQ e fuel hp cl := by
   unfold loadedQB at h
   simp only [Bool.and_eq_true, List.any_eq_true] at h
-  obtain ⟨⟨⟨m, hm, hl⟩, h2⟩, h3⟩ := h
-  refine ⟨⟨st, lam, ent, m, hc, ?_, loadedB_sound hl⟩, npArgsB_sound h2, h3⟩
+  obtain ⟨⟨⟨m, hm, hl, hi⟩, h2⟩, h3⟩ := h
+  refine ⟨⟨st, lam, ent, m, hc, ?_, loadedB_sound hl, immLoadedB_sound hi⟩, npArgsB_sound h2, h3⟩
   rcases List.mem_cons.mp hm with hm | hm
   · exact .inl hm
   · rcases List.mem_cons.mp hm with hm | hm
@@ -187,14 +236,16 @@ theorem newCellB_sound {Q : CLambda → Bool} {Qp : CLambda → Prop} (hQ : ∀ 
   | lambda cl => exact .lambda (hQ cl h)
   | cont k => cases h
 
-theorem cellStepB_sound {Q : CLambda → Bool} {Qp : CLambda → Prop} (hQ : ∀ cl, Q cl = true → Qp cl) {h : CHeap}
+theorem cellStepB_sound {Q : CHeap → CLambda → Bool} {Qp : CHeap → CLambda → Prop}
+    (hQ : ∀ h cl, Q h cl = true → Qp h cl) {h : CHeap}
     {c : CCell} (hs : ∀ v, c = .val v → symOf v = none) (hb : cellStepB Q h c = true) :
     InstStep Qp h (cput h c).1 := by
   unfold cellStepB at hb
   simp only [Bool.and_eq_true] at hb
-  exact .cell (newCellB_sound hQ hs hb.1.1) (crefsOkB_sound hb.1.2) hb.2
+  exact .cell (newCellB_sound (hQ h) hs hb.1.1.1) (crefsOkB_sound hb.1.1.2) hb.1.2 hb.2
 
-theorem replay_sound {Q : CLambda → Bool} {Qp : CLambda → Prop} (hQ : ∀ cl, Q cl = true → Qp cl) (after : CHeap) :
+theorem replay_sound {Q : CHeap → CLambda → Bool} {Qp : CHeap → CLambda → Prop}
+    (hQ : ∀ h cl, Q h cl = true → Qp h cl) (after : CHeap) :
     ∀ (k : Nat) (h h' : CHeap), replay Q after k h = some h' → InstSteps Qp h h' := by
   intro k
   induction k with
@@ -236,7 +287,7 @@ theorem replay_sound {Q : CLambda → Bool} {Qp : CLambda → Prop} (hQ : ∀ cl
       | lambda cl => exact other (fun w hw => by cases hw) he
       | cont kk => exact other (fun w hw => by cases hw) he
 
-theorem globReplay_sound {Qp : CLambda → Prop} :
+theorem globReplay_sound {Qp : CHeap → CLambda → Prop} :
     ∀ (ys : List Nat) (h h' : CHeap), globReplay ys h = some h' → InstSteps Qp h h'
   | [], h, h', he => by
     have : some h = some h' := he
@@ -258,7 +309,7 @@ theorem symLookup_none_of_not_mem {h : CHeap} {name : Text} (hn : name ∉ tabNa
   unfold tabNames
   exact List.mem_map.mpr ⟨x, hx, of_decide_eq_true hxn⟩
 
-theorem resymB_sound {Qp : CLambda → Prop} {h after : CHeap} (hb : resymB h after = true) :
+theorem resymB_sound {Qp : CHeap → CLambda → Prop} {h after : CHeap} (hb : resymB h after = true) :
     InstStep Qp h after := by
   unfold resymB at hb
   simp only [Bool.and_eq_true, decide_eq_true_eq, List.all_eq_true] at hb
@@ -285,7 +336,8 @@ theorem resymB_sound {Qp : CLambda → Prop} {h after : CHeap} (hb : resymB h af
   have := InstStep.resym (Q := Qp) look keys
   rwa [e] at this
 
-theorem stepsB_sound {Q : CLambda → Bool} {Qp : CLambda → Prop} (hQ : ∀ cl, Q cl = true → Qp cl) {h h' : CHeap}
+theorem stepsB_sound {Q : CHeap → CLambda → Bool} {Qp : CHeap → CLambda → Prop}
+    (hQ : ∀ h cl, Q h cl = true → Qp h cl) {h h' : CHeap}
     (hb : stepsB Q h h' = true) : InstSteps Qp h h' := by
   unfold stepsB at hb
   cases hr : replay Q h' (newCount h h') h with
@@ -334,7 +386,7 @@ theorem installsB_sound {e : Datum} {fuel : Nat} {s s' : St CHeap} {entry : Nat}
     simp only [Bool.and_eq_true, Bool.not_eq_true'] at hb
     obtain ⟨⟨⟨h1, h2⟩, h3⟩, h4⟩ := hb
     obtain ⟨cl, hcl, hl⟩ := entryB_sound h2
-    refine ⟨regsEqB_sound hr, stepsB_sound (fun cl h => loadedQB_sound hc h) h1, ⟨st, lam, ent, cl, hc, hcl, hl⟩,
+    refine ⟨regsEqB_sound hr, stepsB_sound (fun _ cl h => loadedQB_sound hc h) h1, ⟨st, lam, ent, cl, hc, hcl, hl⟩,
       (nonFreeB_iff _ _).mp h3, ?_⟩
     intro hn
     rw [(nonFreeB_iff _ _).mpr hn] at h4
@@ -343,6 +395,6 @@ theorem installsB_sound {e : Datum} {fuel : Nat} {s s' : St CHeap} {entry : Nat}
 theorem garbageB_sound {s s' : St CHeap} (hb : garbageB s s' = true) : InstallsGarbage s s' := by
   unfold garbageB at hb
   rw [Bool.and_eq_true] at hb
-  exact ⟨regsEqB_sound hb.1, stepsB_sound (fun cl h => codeOkB_sound h) hb.2⟩
+  exact ⟨regsEqB_sound hb.1, stepsB_sound (fun _ cl h => codeOkHB_sound h) hb.2⟩
 
 end Marwood.Lemmas.Good
